@@ -277,6 +277,9 @@ class Interp:
         if isinstance(v, SymObj):
             key = '%s.%s' % (v.name, name)
             ty = self.field_type(owner, name)
+            if ty not in INT_W and ty != 'bool' and ty != '?' and not ty.startswith('std::option::Option<') and key not in self.env.assign \
+                    and ty not in getattr(self.env, 'domains', {}):
+                return SymObj(key, adt=ty)     # a nested structure (map, vec, struct): symbolic, only call models look inside
             val = self.env.atom(key, ty)
             return self.materialise(val, ty, key)
         raise Unsupported('field %s of %r' % (name, v))
